@@ -222,6 +222,37 @@ def _conc_amplitudes(ctx, component, kind, nfft, fs):
         ctx.check(ok, lab, info="amplitudes == definition with the phases of numpy's generator seeded as requested")
 
 
+def case_amplitudes_offgrid(ctx, nfft=8, fs="2"):
+    """a spectrum with as many bins as the FFT grid (nfft/2) but NOT on it (shifted by half a bin) is resampled: the
+    amplitudes carry the linearly interpolated density (0 below the first node), not the un-resampled bins"""
+    seedlog = []
+    TS = _install(ctx, seedlog)
+    nf = nfft // 2
+    df = Fraction(fs) / nfft
+    g = [df * (k + Fraction(1, 2)) for k in range(nf)]
+    sym = ctx.mode == "sym"
+    f = np.array([SR(x) for x in g], dtype=object) if sym else np.array([float(x) for x in g])
+    e = ctx.reals("e", (nf,))
+    for x in e.flat:
+        ctx.assume(ctx.le(0, x))
+    zero = e * 0
+    s = C.make_1d(ctx, f, e, "scalar", a1=zero, b1=zero, a2=zero, b2=zero)
+    freq = np.array([SR(df * k) for k in range(nf)], dtype=object) if sym else np.array([float(df * k) for k in range(nf)])
+    amps = _flat(TS.create_fourier_amplitudes("z", s, freq, 3))
+    ctx.reach("D-AMP.resampled")
+    ctx.check(len(amps) == nf, "D-AMP.shape")
+    for k in range(nf):
+        A = SC.lift(amps[k]) if sym else amps[k]
+        m2 = (A.re * A.re + A.im * A.im) if sym else float(abs(A) ** 2)
+        Ei = 0 if k == 0 else (e[k - 1] + e[k]) / 2
+        ref = (df if sym else float(df)) * Ei / 2
+        if k == 0:
+            ctx.check(ctx.eq(m2, 0) if sym else m2 == 0, "D-AMP.resampled", info="below the first node: no energy")
+        else:
+            ctx.check(ctx.close(m2, ref, rtol=1e-9), "D-AMP.resampled", info=dict(k=k, what="density interpolated to the FFT bin"),
+                      timeout=20000)
+
+
 def case_variance(ctx, component, nfft, fs="2", nyq=False):
     """sample variance of the series == sum over k>=1 of area_k E_k |factor_k|^2 (zero-frequency bin excluded)"""
     if ctx.mode != "sym":
@@ -330,6 +361,7 @@ def cases(tier):
     if not q:
         add("case_variance", "var_z_n12", component="z", nfft=12, opts=dict(weight=200, case_timeout_s=1500))
     add("case_scaling", "scaling_n8", opts=dict(weight=20))
+    add("case_amplitudes_offgrid", "amp1d_offgrid_same_bin_count")
     add("case_seed", "seed_1d", kind="1d")
     add("case_seed", "seed_2d", kind="2d")
     return cs
